@@ -359,6 +359,7 @@ func runHeap(c *Ctx) {
 		cmpOK, visOK := false, false
 		oldPath := vPath + "." + distField
 		for _, l := range lits {
+			l = core.PositiveOrder(l)
 			if l.Kind == "cmp" && l.Pol {
 				x, y := l.X, l.Y
 				if (l.Op == token.LSS || l.Op == token.LEQ) && x == r.st.Val && core.Path(y) == oldPath {
